@@ -337,7 +337,14 @@ class IncludeIpsNode(NodeProtocol):
                 block_addr = (block_addr_bytes[0] << 16) | block_addr_bytes[1]
                 block_size_word = struct.unpack(">H", ips_file.read(2))
                 block_size = block_size_word[0]
-                block = ips_file.read(block_size)
+                if block_size == 0:
+                    # run-length record: 2-byte count followed by the byte to repeat.
+                    rle_size, rle_value = struct.unpack(">HB", ips_file.read(3))
+                    block = bytes([rle_value]) * rle_size
+                else:
+                    block = ips_file.read(block_size)
+                    if len(block) != block_size:
+                        raise RuntimeError(f"{self.ips_file_path} is truncated")
 
                 if self.delta is not None:
                     block_addr += self.delta
